@@ -1,0 +1,235 @@
+// Copyright 2020-2025 Buf Technologies, Inc.
+//
+// Licensed under the Apache License, Version 2.0 (the "License");
+// you may not use this file except in compliance with the License.
+// You may obtain a copy of the License at
+//
+//      http://www.apache.org/licenses/LICENSE-2.0
+//
+// Unless required by applicable law or agreed to in writing, software
+// distributed under the License is distributed on an "AS IS" BASIS,
+// WITHOUT WARRANTIES OR CONDITIONS OF ANY KIND, either express or implied.
+// See the License for the specific language governing permissions and
+// limitations under the License.
+
+
+//go:build verif
+
+package storage
+
+// Contracts for the gocv verifier (see /verif/DESIGN.md). Comment-only.
+// Combinators: multi.go, filter.go, strip.go, matcher.go, mapper.go (chainMapper); C13, C14.
+//
+// Put options: NewPutOptions is a deterministic function of the option list, PutOptions methods are accessors.
+//@ trusted pure func NewPutOptions(options) (r)
+//@   ensures r != nil
+//@ trusted pure interface PutOptions
+//
+// ---- matcher.go (C14): boolean semantics of the combinators; a Matcher is a deterministic predicate on paths
+//@ trusted pure interface Matcher
+//
+//@ pure func (orMatcher) MatchPath(path) (r)
+//@   property C14
+//@   ensures any: r <==> (exists j int :: 0 <= j && j < len(o) && o[j].MatchPath(path))
+//@   loop 0 invariant forall j int :: 0 <= j && j < $i ==> !o[j].MatchPath(path)
+//@   canary ensures r
+//@   canary ensures !r
+//
+//@ pure func (andMatcher) MatchPath(path) (r)
+//@   property C14
+//@   ensures all: r <==> (forall j int :: 0 <= j && j < len(a) ==> a[j].MatchPath(path))
+//@   loop 0 invariant forall j int :: 0 <= j && j < $i ==> a[j].MatchPath(path)
+//@   canary ensures r
+//@   canary ensures !r
+//
+//@ pure func (notMatcher) MatchPath(path) (r)
+//@   property C14
+//@   ensures negation: r <==> !n.delegate.MatchPath(path)
+//
+// ---- strip.go (C13, C14, C15): the delegate sees exactly the path it was given; an object whose external path already
+// equals its path is passed through unchanged. (That the rebuilt object info carries path/path/local-path is NOT
+// covered: the engine does not link the boxed storageutil.ObjectInfo value to the interface methods.)
+//@ pure func stripObjectInfoExternalPath(objectInfo) (r)
+//@   property C14
+//@   requires objectInfo != nil
+//@   ensures r != nil
+//@   ensures identity: objectInfo.Path() == objectInfo.ExternalPath() ==> r == objectInfo
+//
+//@ func stripReadObjectCloserExternalPath(readObjectCloser) (r)
+//@   property C14
+//@   requires readObjectCloser != nil
+//@   ensures r != nil
+//@   ensures identity: readObjectCloser.Path() == readObjectCloser.ExternalPath() ==> r == readObjectCloser
+//
+//@ func (r *stripReadBucket) Get(ctx, path) (obj, err)
+//@   property C13 C14
+//@   modifies ghost.fail, ghost.sinkPaths, ghost.sinkBuckets
+//@   ensures same-path: ghost.sinkPaths == add(old(ghost.sinkPaths), path) && ghost.sinkBuckets == add(old(ghost.sinkBuckets), r.delegate)
+//@   ensures err == nil ==> obj != nil
+//@   ensures reported {C15}: ghost.fail && !old(ghost.fail) ==> err != nil
+//
+//@ func (r *stripReadBucket) Stat(ctx, path) (obj, err)
+//@   property C13 C14
+//@   modifies ghost.sinkPaths, ghost.sinkBuckets
+//@   ensures same-path: ghost.sinkPaths == add(old(ghost.sinkPaths), path) && ghost.sinkBuckets == add(old(ghost.sinkBuckets), r.delegate)
+//@   ensures err == nil ==> obj != nil
+//
+//@ func (r *stripReadBucket) Walk(ctx, prefix, f) (err)
+//@   property C13 C14
+//@   callback pure f
+//@   modifies heap, ghost.fail, ghost.wfail, ghost.sinkPaths, ghost.sinkBuckets
+//@   ensures same-prefix: forall q string :: q in ghost.sinkPaths && !(q in old(ghost.sinkPaths)) ==> q == prefix
+//@   closure 0 invariant forall q string :: q in ghost.sinkPaths && !(q in old(ghost.sinkPaths)) ==> q == prefix
+//@   closure 0 requires objectInfo != nil
+//@   closure 0 ensures forwards-stripped: err == f(stripObjectInfoExternalPath(objectInfo))
+//
+// ---- filter.go (C13, C14): Get/Stat(p) is the delegate's Get/Stat(norm(p)) if the matcher accepts norm(p), a
+// not-exist error otherwise (the delegate is then not consulted at all); Walk forwards the matching subset.
+//@ func (r *filterReadBucketCloser) Get(ctx, path) (obj, err)
+//@   property C13 C14
+//@   modifies ghost.fail, ghost.sinkPaths, ghost.sinkBuckets
+//@   ensures invalid-rejected: !validRel(Normalize(path)) ==> err != nil && ghost.sinkPaths == old(ghost.sinkPaths)
+//@   ensures filtered-out: validRel(Normalize(path)) && !r.matcher.MatchPath(Normalize(path)) ==> ghost.sinkPaths == old(ghost.sinkPaths) && err != nil && typeOf(err) == typeId(*fs.PathError) && cast(*fs.PathError, err).Err == fs.ErrNotExist
+//@   ensures forwarded: validRel(Normalize(path)) && r.matcher.MatchPath(Normalize(path)) ==> ghost.sinkPaths == add(old(ghost.sinkPaths), Normalize(path)) && ghost.sinkBuckets == add(old(ghost.sinkBuckets), r.delegate)
+//@   ensures reported {C15}: ghost.fail && !old(ghost.fail) ==> err != nil
+//@   canary ensures err != nil
+//
+//@ func (r *filterReadBucketCloser) Stat(ctx, path) (obj, err)
+//@   property C13 C14
+//@   modifies ghost.sinkPaths, ghost.sinkBuckets
+//@   ensures invalid-rejected: !validRel(Normalize(path)) ==> err != nil && ghost.sinkPaths == old(ghost.sinkPaths)
+//@   ensures filtered-out: validRel(Normalize(path)) && !r.matcher.MatchPath(Normalize(path)) ==> ghost.sinkPaths == old(ghost.sinkPaths) && err != nil && typeOf(err) == typeId(*fs.PathError) && cast(*fs.PathError, err).Err == fs.ErrNotExist
+//@   ensures forwarded: validRel(Normalize(path)) && r.matcher.MatchPath(Normalize(path)) ==> ghost.sinkPaths == add(old(ghost.sinkPaths), Normalize(path)) && ghost.sinkBuckets == add(old(ghost.sinkBuckets), r.delegate)
+//@   canary ensures err != nil
+//
+// Walk: the delegate is walked at the normalized, validated prefix, and f is reached only for an object whose path
+// the matcher accepts (assertion at the one call of f; in `closure N ensures` the name r would denote the closure's
+// result and hide the receiver, so the functional form "skipped => nil, matching => f's answer" cannot be written).
+//@ func (r *filterReadBucketCloser) Walk(ctx, prefix, f) (err)
+//@   property C13 C14
+//@   modifies heap, ghost.fail, ghost.wfail, ghost.sinkPaths, ghost.sinkBuckets
+//@   ensures invalid-rejected: !validRel(Normalize(prefix)) ==> err != nil && ghost.sinkPaths == old(ghost.sinkPaths)
+//@   ensures prefix-forwarded: forall q string :: q in ghost.sinkPaths && !(q in old(ghost.sinkPaths)) ==> validRel(q) && q == Normalize(prefix)
+//@   closure 0 invariant forall q string :: q in ghost.sinkPaths && !(q in old(ghost.sinkPaths)) ==> validRel(q) && q == Normalize(old(prefix))
+//@   assert before "return f(objectInfo)" only-matching: r.matcher.MatchPath(objectInfo.Path())
+//
+// ---- mapper.go, chainMapper (C13, C14): a chain of mappers confines to the root of its OUTERMOST mapper
+// (mappers[0], applied last), compositionally: if the step function f confines every valid relative path to the
+// root of the mapper it is applied with, then whatever the chain returns is a valid relative path inside the root of
+// mappers[0]; an empty chain is the identity; a step that does not match ends the chain with ("", false).
+//@ func (c chainMapper) mapFunc(pathOrPrefix, f) (full, ok)
+//@   property C13 C14
+//@   callback pure f
+//@   ensures identity: len(c.mappers) == 0 ==> ok && full == pathOrPrefix
+//@   ensures no-match: !ok ==> full == ""
+//@   ensures confined: (forall m Mapper, x string :: second(f(m, x)) && validRel(x) && validRel(rootOf(m)) ==> validRel(first(f(m, x))) && inside(rootOf(m), first(f(m, x)))) && (forall j int :: 0 <= j && j < len(c.mappers) ==> validRel(rootOf(c.mappers[j]))) && validRel(pathOrPrefix) && ok && len(c.mappers) > 0 ==> validRel(full) && inside(rootOf(c.mappers[0]), full)
+//@   ensures single: len(c.mappers) == 1 ==> ok == second(f(c.mappers[0], pathOrPrefix)) && (ok ==> full == first(f(c.mappers[0], pathOrPrefix)))
+//@   loop 0 invariant -1 <= i && i < len(c.mappers)
+//@   loop 0 invariant i == len(c.mappers) - 1 ==> fullPathOrPrefix == pathOrPrefix
+//@   loop 0 invariant (forall m Mapper, x string :: second(f(m, x)) && validRel(x) && validRel(rootOf(m)) ==> validRel(first(f(m, x))) && inside(rootOf(m), first(f(m, x)))) && (forall j int :: 0 <= j && j < len(c.mappers) ==> validRel(rootOf(c.mappers[j]))) && validRel(pathOrPrefix) ==> validRel(fullPathOrPrefix) && (i < len(c.mappers) - 1 ==> inside(rootOf(c.mappers[i + 1]), fullPathOrPrefix))
+//@   loop 0 invariant len(c.mappers) == 1 && i == -1 ==> second(f(c.mappers[0], pathOrPrefix)) && fullPathOrPrefix == first(f(c.mappers[0], pathOrPrefix))
+//@   canary ensures ok
+//@   canary ensures !ok
+//
+//@ func (c chainMapper) MapPath(path) (full, ok)
+//@   property C13 C14
+//@   ensures confined: ok && validRel(path) && len(c.mappers) > 0 && (forall j int :: 0 <= j && j < len(c.mappers) ==> validRel(rootOf(c.mappers[j]))) ==> validRel(full) && inside(rootOf(c.mappers[0]), full)
+//@   ensures single: len(c.mappers) == 1 && ok ==> full == c.mappers[0].MapPath(path)
+//@   canary ensures ok
+//
+// ---- errors.go helpers used by the combinators
+//@ pure func IsNotExist(err) (r)
+//@   property C14
+//@   ensures r == errors.Is(err, fs.ErrNotExist)
+//@   ensures err == nil ==> !r
+//
+//@ func NewErrExistsMultipleLocations(path, externalPaths) (r)
+//@   property C14
+//@   ensures r != nil && typeOf(r) == typeId(*errorExistsMultipleLocations) && cast(*errorExistsMultipleLocations, r).Path == path
+//
+// ---- multi.go (C14): union and overlay of read buckets
+//
+// Every delegate is asked about exactly the given path, nobody else is asked. A UNION answer is given only after
+// every delegate has been consulted (a path present in a later delegate cannot be hidden by an earlier hit); an
+// OVERLAY answer comes from the first delegate that has the path (no later delegate is consulted). The returned
+// index is in range. (That "two hits => ErrExistsMultipleLocations" follows from counting successful Stat calls;
+// the shared trusted contract of ReadBucket.Stat gives no handle on outcomes, see the report.)
+//@ func (m *multiReadBucket) getObjectInfoAndDelegateIndex(ctx, op, path) (info, idx, err)
+//@   property C13 C14
+//@   modifies ghost.sinkPaths, ghost.sinkBuckets
+//@   ensures in-range: err == nil ==> info != nil && 0 <= idx && idx < len(m.delegates)
+//@   ensures err != nil ==> info == nil && idx == 0
+//@   ensures same-path: forall q string :: q in ghost.sinkPaths && !(q in old(ghost.sinkPaths)) ==> q == path
+//@   ensures only-delegates: forall b ref :: b in ghost.sinkBuckets && !(b in old(ghost.sinkBuckets)) ==> (exists j int :: 0 <= j && j < len(m.delegates) && b == m.delegates[j])
+//@   ensures union-consults-all: !m.overlay && err == nil ==> (forall j int :: 0 <= j && j < len(m.delegates) ==> m.delegates[j] in ghost.sinkBuckets)
+//@   ensures overlay-first-hit: m.overlay && err == nil ==> (forall b ref :: b in ghost.sinkBuckets && !(b in old(ghost.sinkBuckets)) ==> (exists j int :: 0 <= j && j <= idx && b == m.delegates[j]))
+//@   ensures none-is-not-exist: err != nil && (forall j int :: 0 <= j && j < len(m.delegates) ==> m.delegates[j] in ghost.sinkBuckets) && typeOf(err) == typeId(*fs.PathError) && allocated(err) && !old(allocated(err)) ==> cast(*fs.PathError, err).Err == fs.ErrNotExist
+//@   loop 0 invariant len(objectInfos) == len(delegateIndices)
+//@   loop 0 invariant m.overlay ==> len(objectInfos) == 0
+//@   loop 0 invariant forall j int :: 0 <= j && j < len(objectInfos) ==> objectInfos[j] != nil && 0 <= delegateIndices[j] && delegateIndices[j] < $i
+//@   loop 0 invariant forall q string :: q in ghost.sinkPaths && !(q in old(ghost.sinkPaths)) ==> q == path
+//@   loop 0 invariant forall b ref :: b in ghost.sinkBuckets && !(b in old(ghost.sinkBuckets)) ==> (exists j int :: 0 <= j && j < $i && b == m.delegates[j])
+//@   loop 0 invariant forall j int :: 0 <= j && j < $i ==> m.delegates[j] in ghost.sinkBuckets
+//@   canary ensures err != nil
+//@   canary ensures err == nil
+//
+//@ func (m *multiReadBucket) Stat(ctx, path) (info, err)
+//@   property C13 C14
+//@   modifies ghost.sinkPaths, ghost.sinkBuckets
+//@   ensures err == nil ==> info != nil
+//@   ensures same-path: forall q string :: q in ghost.sinkPaths && !(q in old(ghost.sinkPaths)) ==> q == path
+//@   ensures only-delegates: forall b ref :: b in ghost.sinkBuckets && !(b in old(ghost.sinkBuckets)) ==> (exists j int :: 0 <= j && j < len(m.delegates) && b == m.delegates[j])
+//@   ensures union-consults-all: !m.overlay && err == nil ==> (forall j int :: 0 <= j && j < len(m.delegates) ==> m.delegates[j] in ghost.sinkBuckets)
+//
+//@ func (m *multiReadBucket) Get(ctx, path) (obj, err)
+//@   property C13 C14
+//@   modifies ghost.fail, ghost.sinkPaths, ghost.sinkBuckets
+//@   requires len(m.delegates) > 0
+//@   ensures err == nil ==> obj != nil
+//@   ensures same-path: forall q string :: q in ghost.sinkPaths && !(q in old(ghost.sinkPaths)) ==> q == path
+//@   ensures only-delegates: forall b ref :: b in ghost.sinkBuckets && !(b in old(ghost.sinkBuckets)) ==> (exists j int :: 0 <= j && j < len(m.delegates) && b == m.delegates[j])
+//@   ensures union-consults-all: !m.overlay && err == nil ==> (forall j int :: 0 <= j && j < len(m.delegates) ==> m.delegates[j] in ghost.sinkBuckets)
+//
+// Walk: every delegate is walked at the given prefix. f is modelled as a deterministic function (`callback pure`);
+// the per-object callback is then specified against the set of paths already forwarded (seenPathToExternalPath):
+// a path seen before is reported (union: ErrExistsMultipleLocations, f not consulted) or skipped (overlay: nil);
+// a new path is recorded and gets exactly f's answer. Hence each path reaches f at most once.
+//@ func (m *multiReadBucket) Walk(ctx, prefix, f) (err)
+//@   property C13 C14
+//@   callback pure f
+//@   modifies heap, ghost.fail, ghost.sinkPaths, ghost.sinkBuckets
+//@   ensures same-prefix: forall q string :: q in ghost.sinkPaths && !(q in old(ghost.sinkPaths)) ==> q == prefix
+//@   loop 0 invariant forall q string :: q in ghost.sinkPaths && !(q in old(ghost.sinkPaths)) ==> q == prefix
+//@   closure 0 invariant forall q string :: q in ghost.sinkPaths && !(q in old(ghost.sinkPaths)) ==> q == prefix
+//@   closure 0 ensures duplicate-reported: objectInfo.Path() in old(seenPathToExternalPath) && !m.overlay ==> err != nil && typeOf(err) == typeId(*errorExistsMultipleLocations) && seenPathToExternalPath == old(seenPathToExternalPath)
+//@   closure 0 ensures duplicate-skipped: objectInfo.Path() in old(seenPathToExternalPath) && m.overlay ==> err == nil && seenPathToExternalPath == old(seenPathToExternalPath)
+//@   closure 0 ensures first-forwarded: !(objectInfo.Path() in old(seenPathToExternalPath)) ==> err == f(objectInfo) && seenPathToExternalPath == put(old(seenPathToExternalPath), objectInfo.Path(), objectInfo.ExternalPath())
+//
+// The empty bucket: every valid path does not exist, nothing is ever yielded, hostile paths are still rejected.
+//@ func (nopReadBucket) Get(ctx, path) (obj, err)
+//@   property C13 C14
+//@   ensures obj == nil && err != nil
+//@   ensures not-exist: validRel(Normalize(path)) && Normalize(path) != "." ==> typeOf(err) == typeId(*fs.PathError) && cast(*fs.PathError, err).Err == fs.ErrNotExist
+//@ func (nopReadBucket) Stat(ctx, path) (obj, err)
+//@   property C13 C14
+//@   ensures obj == nil && err != nil
+//@   ensures not-exist: validRel(Normalize(path)) && Normalize(path) != "." ==> typeOf(err) == typeId(*fs.PathError) && cast(*fs.PathError, err).Err == fs.ErrNotExist
+//@ func (nopReadBucket) Walk(ctx, prefix, f) (err)
+//@   property C13 C14
+//@   modifies ghost.cbCalls, ghost.cbArgs, ghost.cbArg0, ghost.cbArg1, ghost.cbArg2, ghost.cbArg3
+//@   ensures (err == nil) <==> validRel(Normalize(prefix))
+//@   ensures yields-nothing: ghost.cbCalls == old(ghost.cbCalls)
+//
+// chainMapper.UnmapFullPath applies the mappers outermost-first; an empty chain is the identity, a one-element chain
+// is that mapper, an error or a mismatch of any step ends the chain with an empty path.
+//@ func (c chainMapper) UnmapFullPath(fullPath) (path, ok, err)
+//@   property C14
+//@   ensures identity: len(c.mappers) == 0 ==> ok && err == nil && path == fullPath
+//@   ensures failed-empty: (err != nil || !ok) ==> path == "" && !ok
+//@   ensures single: len(c.mappers) == 1 ==> ok == (second(c.mappers[0].UnmapFullPath(fullPath)) && third(c.mappers[0].UnmapFullPath(fullPath)) == nil) && (ok ==> path == first(c.mappers[0].UnmapFullPath(fullPath)))
+//@   loop 0 invariant $i == 0 ==> path == fullPath
+//@   loop 0 invariant len(c.mappers) == 1 && $i == 1 ==> path == first(c.mappers[0].UnmapFullPath(fullPath)) && second(c.mappers[0].UnmapFullPath(fullPath)) && third(c.mappers[0].UnmapFullPath(fullPath)) == nil
+//@   canary ensures ok
+//
+// Interface contract used above: unmapping is a deterministic function of the mapper and the path.
+//@ trusted pure func (Mapper) UnmapFullPath(fullPath) (path, ok, err)
